@@ -161,6 +161,15 @@ class C16(Check):
         if zero_w:
             w = w.copy()
             w[np.arange(m) % 3 == 1] = 0.0
+        w_arg, z_arg = w, z
+        if case_bits(case, "series-attributes") % 3 == 0 and (w is not None or z is not None):
+            # attribute samples handed over as columns of a re-ordered table (pandas Series whose labels are not 0..m-1):
+            # the source row of a drawn point is a POSITION, the same one for weight and redshift
+            import pandas as pd
+
+            labels = np.random.default_rng(case["seed"]).permutation(m)
+            w_arg = None if w is None else pd.Series(w, index=labels)
+            z_arg = None if z is None else pd.Series(z, index=labels)
         seed = int(rng.integers(1 << 30))
         if case["mode"] == "generate":
             n = max(n, 200)
@@ -191,7 +200,7 @@ class C16(Check):
                 return dict(per_patch=per_patch, all=multiset_digest(allrows), n=int(len(allrows)),
                             meta_n=int(sum(cat.get_num_records())), names=list(allrows.dtype.names))
 
-            g = BoxRandoms(ra0, ra1, dec0, dec1, weights=w, redshifts=z, seed=seed)
+            g = BoxRandoms(ra0, ra1, dec0, dec1, weights=w_arg, redshifts=z_arg, seed=seed)
             try:
                 first = create("a", g, 1)
             except ValueError as e:
@@ -246,12 +255,12 @@ class C16(Check):
                 bad("reproducibility:second-creation-differs", dict(n=n, chunk=chunk, mode=case["mode"]))
             elif case["mode"] == "centres" and second["per_patch"] != first["per_patch"]:
                 bad("reproducibility:per-patch-differs", {})
-            fresh = create("c", BoxRandoms(ra0, ra1, dec0, dec1, weights=w, redshifts=z, seed=seed), 1)
+            fresh = create("c", BoxRandoms(ra0, ra1, dec0, dec1, weights=w_arg, redshifts=z_arg, seed=seed), 1)
             counters["reproducibility_pairs"] += 1
             if fresh["all"] != first["all"]:
                 bad("reproducibility:fresh-generator-same-seed-differs", {})
             # a generator given its seed after construction (reseed) is the generator constructed with that seed
-            late = BoxRandoms(ra0, ra1, dec0, dec1, weights=w, redshifts=z, seed=seed + 17)
+            late = BoxRandoms(ra0, ra1, dec0, dec1, weights=w_arg, redshifts=z_arg, seed=seed + 17)
             late.reseed(seed)
             if int(rng.integers(2)):
                 late(5)
@@ -262,18 +271,18 @@ class C16(Check):
             if case["mode"] == "generate":
                 # the points are the generator's seeded stream whichever way the patches are defined
                 try:
-                    by_centres = create("m", BoxRandoms(ra0, ra1, dec0, dec1, weights=w, redshifts=z, seed=seed), 1, mode="centres")
+                    by_centres = create("m", BoxRandoms(ra0, ra1, dec0, dec1, weights=w_arg, redshifts=z_arg, seed=seed), 1, mode="centres")
                     counters["reproducibility_pairs"] += 1
                     if by_centres["all"] != first["all"]:
                         bad("reproducibility:points-depend-on-patch-mode", dict(n=n, chunk=chunk))
                 except ValueError as e:
                     if "no data assigned" not in str(e):
                         raise
-            other = create("d", BoxRandoms(ra0, ra1, dec0, dec1, weights=w, redshifts=z, seed=seed + 1), 1)
+            other = create("d", BoxRandoms(ra0, ra1, dec0, dec1, weights=w_arg, redshifts=z_arg, seed=seed + 1), 1)
             if n >= 3 and other["all"] == first["all"]:
                 bad("reproducibility:seed-ignored", {})
             if workers > 1:
-                res = run_forked(lambda: create("e", BoxRandoms(ra0, ra1, dec0, dec1, weights=w, redshifts=z, seed=seed), workers),
+                res = run_forked(lambda: create("e", BoxRandoms(ra0, ra1, dec0, dec1, weights=w_arg, redshifts=z_arg, seed=seed), workers),
                                  workdir=tmp, wall_cap=120)
                 if res["outcome"] == "returned":
                     counters["reproducibility_pairs"] += 1
